@@ -553,7 +553,9 @@ def run(prog, tier):
                 continue
             nstores += 1
             ok, why = trimmed_store(f, nid, rhs, q)
-            if ok:
+            if ok is None:
+                res.undecided('trimmed-name', '%s::_name' % q.split('::')[-1], f.loc(nid), why, function=f.sig, expr='_name')
+            elif ok:
                 res.ok('trimmed-name', '%s::_name' % q.split('::')[-1], f.loc(nid), why, function=f.sig, expr='_name@%d' % nid)
             else:
                 res.viol('trimmed-name', '%s::_name' % q.split('::')[-1], f.loc(nid), why, function=f.sig, expr='_name')
@@ -620,7 +622,14 @@ def trimmed_store(f, nid, rhs, cls):
                 continue
             return True, 'stored value passed through ezc3d::removeTrailingSpaces at %s' % f.loc(t)
         return False, 'stored from local `%s` that did not pass through ezc3d::removeTrailingSpaces on every path' % m['decl']['name']
-    return False, 'name stored untrimmed (source: %s %s)' % (kind, '.'.join(path))
+    # trimmed on the way:  X.substr(0, X.find_last_not_of(' ') + 1)   (npos + 1 == 0: an all-space name becomes empty)
+    r_ = R0.render(rhs)
+    mt = re.match(r'^(.+)\.substr\(0,\(?(.+)\.find_last_not_of\(32(?:,18446744073709551615)?\) \+ 1\)?\)$', r_)
+    if mt and mt.group(1) == mt.group(2):
+        return True, 'stored value is %s cut behind its last character that is not a space' % mt.group(1)
+    if kind in ('param', 'param-value') and m['k'] == 'DeclRefExpr':
+        return False, 'the argument is stored as given (source: %s %s): trailing spaces are kept' % (kind, '.'.join(path))
+    return None, 'the stored value (%s) is computed in a form the rule does not read [shape not read by the rule]' % r_[:120]
 
 
 def model_by_name(f, cont, alias):
